@@ -495,9 +495,6 @@ func symbolTexts(vals []*model.Value) []string {
 }
 
 func (s chunkfault) writeSide(c *Ctx, r *prng.Rand, vals []*model.Value) {
-	ops := append(drive.DocOps(vals), drive.WOp{Op: "finish"})
-	finishIdx := len(ops) - 1
-	all := append(append([]drive.WOp(nil), ops...), writeProbes...)
 	if r.Chance(1, 6) {
 		// a bulky value (well beyond any small internal batching size) somewhere in the document
 		n := r.Range(500, 3000)
@@ -521,6 +518,9 @@ func (s chunkfault) writeSide(c *Ctx, r *prng.Rand, vals []*model.Value) {
 		}
 		c.Count("docs.with-bulky-value(write side)", 1)
 	}
+	ops := append(drive.DocOps(vals), drive.WOp{Op: "finish"})
+	finishIdx := len(ops) - 1
+	all := append(append([]drive.WOp(nil), ops...), writeProbes...)
 	cfgs := []drive.WriterCfg{{Kind: "text"}, {Kind: "pretty"}, {Kind: "binary"}, {Kind: "binary-lst", LSTSymbols: symbolTexts(vals)},
 		{Kind: "text", Quiet: true}, {Kind: "pretty", Quiet: true}}
 	for _, cfg := range cfgs {
